@@ -64,6 +64,8 @@ func runC06onEngine(c *harness.Case, kind string) {
 	var stop int32
 	var wg sync.WaitGroup
 	var nFail, nSucc, nCompact int64
+	var wmu sync.Mutex
+	var wlog []string
 	nWriters := 2 + r.Intn(3)
 	for wi := 0; wi < nWriters; wi++ {
 		wg.Add(1)
@@ -92,6 +94,9 @@ func runC06onEngine(c *harness.Case, kind string) {
 					op = harness.SeqOp{Kind: "delete", Key: key}
 				}
 				out := n.Do(op)
+				wmu.Lock()
+				wlog = append(wlog, fmt.Sprintf("w%d %s -> %s", wi, op, out))
+				wmu.Unlock()
 				if out.Err == "" && out.Succeeded {
 					atomic.AddInt64(&nSucc, 1)
 				} else {
@@ -236,8 +241,23 @@ func runC06onEngine(c *harness.Case, kind string) {
 					}
 				}
 				if !same {
+					var allEv []string
+					for _, ev := range events {
+						allEv = append(allEv, evStr(ev))
+					}
+					wmu.Lock()
+					var wl []string
+					for _, l := range wlog {
+						if strings.Contains(l, P) {
+							wl = append(wl, l)
+						}
+					}
+					wmu.Unlock()
+					if len(wl) > 150 {
+						wl = wl[len(wl)-150:]
+					}
 					c.Violatef("C06 list-plus-events-differs-from-later-list", map[string]interface{}{"engine": kind, "cache_size": cache, "prefix": P, "R": R, "R2": R2,
-						"list_at_R": kvStr(l1.Kvs), "events_applied": evs, "reconstructed": kvStr(got), "list_at_R2": kvStr(l2.Kvs)},
+						"list_at_R": kvStr(l1.Kvs), "events_applied": evs, "all_events_received": allEv, "writer_log_under_prefix": wl, "reconstructed": kvStr(got), "list_at_R2": kvStr(l2.Kvs)},
 						"prefix %q: List at R=%d plus the %d delivered events with revision in (%d,%d] gives %s; the List served at R'=%d is %s", P, R, applied, R, R2, kvStr(got), R2, kvStr(l2.Kvs))
 					return
 				}
